@@ -90,6 +90,79 @@ Proof.
   - right. left. split; [|intros; discriminate]. apply advance_keeps.
 Qed.
 
+Lemma advance_first : forall cfg n s q,
+  p_first (peer_at (advance cfg s n) q) = p_first (peer_at s q)
+  /\ p_temp (peer_at (advance cfg s n) q) = p_temp (peer_at s q).
+Proof.
+  intros cfg. induction n as [|k IH]; intros s q; cbn [advance]; [split; reflexivity|].
+  destruct (IH (unit_step cfg s) q) as [E1 E2]. rewrite E1, E2. clear.
+  unfold unit_step. cbv zeta. destruct (_ =? 0); [|split; reflexivity]. unfold tick. cbv zeta.
+  rewrite peer_at_map by reflexivity. destruct (p_tracked (peer_at s q)); [|split; reflexivity].
+  destruct (decay_tags _ _). split; reflexivity.
+Qed.
+
+(* ... and to its firstSeen / temp: unchanged, except that the first Connected
+   of a temporary entry (which holds no connection) restarts the grace period *)
+Lemma step_first_cases : forall cfg s o q, inv s -> is_trim o = false ->
+  let s' := fst (step isort cfg s o) in
+  p_tracked (peer_at s q) = true -> p_tracked (peer_at s' q) = true ->
+  (p_first (peer_at s' q) = p_first (peer_at s q) /\ p_temp (peer_at s' q) = p_temp (peer_at s q))
+  \/ (exists x, o = Connected q x /\ p_temp (peer_at s q) = true /\ p_temp (peer_at s' q) = false
+                /\ p_first (peer_at s' q) = now s /\ conns_of s q = [] /\ count s' = count s + 1).
+Proof.
+  intros cfg s o q Hinv Ho s' Ht Ht'. subst s'.
+  destruct o; try discriminate Ho; cbn [step fst] in *.
+  - unfold connected in *. pose proof (peer_at_ok s p Hinv) as [Hu [_ Htmp]].
+    destruct (Nat.eqb p q) eqn:Epq.
+    + apply Nat.eqb_eq in Epq. subst q. rewrite Ht in *. cbn [negb] in *. specialize (Htmp eq_refl).
+      destruct (p_temp (peer_at s p)) eqn:Etmp.
+      * right. exists c. destruct (p_conns (peer_at s p)) eqn:Ec; [|discriminate]. cbn [p_conns memn].
+        rewrite peer_at_set_count, peer_at_set_peer, Nat.eqb_refl. unfold conns_of. rewrite Ec. cbn. repeat split.
+      * left. destruct (memn c (p_conns (peer_at s p))).
+        -- rewrite peer_at_set_peer, Nat.eqb_refl. rewrite Etmp. split; reflexivity.
+        -- rewrite peer_at_set_count, peer_at_set_peer, Nat.eqb_refl. cbn. rewrite Etmp. split; reflexivity.
+    + left. destruct (memn c _); [|rewrite peer_at_set_count]; rewrite peer_at_set_peer, Epq; split; reflexivity.
+  - left. unfold disconnected in *. destruct (p_tracked (peer_at s p)) eqn:Etr; cbn [negb] in *; [|split; reflexivity].
+    destruct (memn c (p_conns (peer_at s p))); cbn [negb] in *; [|split; reflexivity].
+    rewrite peer_at_set_count, peer_at_set_peer in *. destruct (Nat.eqb p q) eqn:Epq; [|split; reflexivity].
+    apply Nat.eqb_eq in Epq. subst q. destruct (rem1 c (p_conns (peer_at s p))); cbn [is_nil] in *; [discriminate Ht'|split; reflexivity].
+  - left. unfold tag_peer. rewrite peer_at_set_peer. destruct (Nat.eqb p q) eqn:Epq; [|split; reflexivity].
+    apply Nat.eqb_eq in Epq. subst q. unfold tag_info_for. rewrite Ht. split; reflexivity.
+  - left. unfold untag_peer. destruct (negb _); [split; reflexivity|]. rewrite peer_at_set_peer.
+    destruct (Nat.eqb p q) eqn:Epq; [|split; reflexivity]. apply Nat.eqb_eq in Epq. subst q. split; reflexivity.
+  - left. unfold upsert_tag. cbv zeta. rewrite peer_at_set_peer. destruct (Nat.eqb p q) eqn:Epq; [|split; reflexivity].
+    apply Nat.eqb_eq in Epq. subst q. unfold tag_info_for. rewrite Ht. split; reflexivity.
+  - left. unfold bump. destruct (negb _); [split; reflexivity|]. cbv zeta. rewrite peer_at_set_peer.
+    destruct (Nat.eqb p q) eqn:Epq; [|split; reflexivity]. apply Nat.eqb_eq in Epq. subst q.
+    unfold tag_info_for. rewrite Ht. split; reflexivity.
+  - left. unfold dremove. destruct (negb _); [split; reflexivity|]. cbv zeta. rewrite peer_at_set_peer.
+    destruct (Nat.eqb p q) eqn:Epq; [|split; reflexivity]. apply Nat.eqb_eq in Epq. subst q.
+    unfold tag_info_for. rewrite Ht. split; reflexivity.
+  - left. unfold dclose. destruct (negb _); [split; reflexivity|]. rewrite peer_at_map by reflexivity. rewrite Ht. split; reflexivity.
+  - left. split; reflexivity.
+  - left. split; reflexivity.
+  - left. apply advance_first.
+Qed.
+
+Lemma advance_now : forall cfg n s, now s <= now (advance cfg s n).
+Proof.
+  intros cfg. induction n as [|k IH]; intros s; cbn [advance]; [lia|].
+  specialize (IH (unit_step cfg s)). assert (now (unit_step cfg s) = now s + 1); [|lia].
+  unfold unit_step. cbv zeta. destruct (_ =? 0); reflexivity.
+Qed.
+
+Lemma step_now : forall cfg s o, is_trim o = false -> now s <= now (fst (step isort cfg s o)).
+Proof.
+  intros cfg s o Ho. destruct o; try discriminate Ho; cbn [step fst]; try (cbn; lia).
+  - unfold connected. destruct (memn _ _); cbn; lia.
+  - unfold disconnected. destruct (negb _); [lia|]. destruct (negb _); cbn; lia.
+  - unfold untag_peer. destruct (negb _); cbn; lia.
+  - unfold bump. destruct (negb _); cbn; lia.
+  - unfold dremove. destruct (negb _); cbn; lia.
+  - unfold dclose. destruct (negb _); cbn; lia.
+  - apply advance_now.
+Qed.
+
 (* ---- sums over the candidate list --------------------------------------------------------- *)
 Lemma filter_rem1_le : forall (f : nat -> bool) c l, zlen (filter f (rem1 c l)) <= zlen (filter f l).
 Proof.
@@ -140,31 +213,36 @@ Qed.
 Definition rem_m (s : state) (sel : list (nat * nat)) (p : nat) : Z :=
   zlen (filter (fun c => negb (memp (p, c) sel)) (conns_of s p)).
 
-(* not yet selected: all its connections count; selected: the ones not in sel *)
-Definition uterm (s : state) (e : cent) : Z :=
-  if ce_live e && negb (ce_done e) then zlen (conns_of s (ce_p e)) else 0.
-Definition dterm (s : state) (sel : list (nat * nat)) (e : cent) : Z :=
-  if ce_live e && ce_done e then rem_m s sel (ce_p e) else 0.
-Definition usum (s : state) (l : list cent) : Z := zsum (map (uterm s) l).
-Definition dsum (s : state) (sel : list (nat * nat)) (l : list cent) : Z := zsum (map (dterm s sel) l).
+(* a candidate whose firstSeen is (now) after gracePeriodStart restarted its
+   grace period after the snapshot: it is no longer eligible and counts for
+   nothing *)
+Definition incl (s : state) (g : Z) (p : nat) : bool := p_first (peer_at s p) <=? g.
 
-Lemma uterm_nonneg : forall s e, 0 <= uterm s e.
+(* not yet selected: all its connections count; selected: the ones not in sel *)
+Definition uterm (s : state) (g : Z) (e : cent) : Z :=
+  if ce_live e && negb (ce_done e) && incl s g (ce_p e) then zlen (conns_of s (ce_p e)) else 0.
+Definition dterm (s : state) (g : Z) (sel : list (nat * nat)) (e : cent) : Z :=
+  if ce_live e && ce_done e && incl s g (ce_p e) then rem_m s sel (ce_p e) else 0.
+Definition usum (s : state) (g : Z) (l : list cent) : Z := zsum (map (uterm s g) l).
+Definition dsum (s : state) (g : Z) (sel : list (nat * nat)) (l : list cent) : Z := zsum (map (dterm s g sel) l).
+
+Lemma uterm_nonneg : forall s g e, 0 <= uterm s g e.
 Proof. intros. unfold uterm. destruct (_ && _); [apply zlen_nonneg|lia]. Qed.
-Lemma dterm_nonneg : forall s sel e, 0 <= dterm s sel e.
+Lemma dterm_nonneg : forall s g sel e, 0 <= dterm s g sel e.
 Proof. intros. unfold dterm, rem_m. destruct (_ && _); [apply zlen_nonneg|lia]. Qed.
 
-(* what is left on the live candidates *)
-Definition phi (s : state) (sel : list (nat * nat)) (l : list cent) : Z :=
-  zsum (map (fun e => if ce_live e then rem_m s sel (ce_p e) else 0) l).
+(* what is left on the live candidates that are still out of grace *)
+Definition phi (s : state) (g : Z) (sel : list (nat * nat)) (l : list cent) : Z :=
+  zsum (map (fun e => if ce_live e && incl s g (ce_p e) then rem_m s sel (ce_p e) else 0) l).
 
 Lemma rem_m_le : forall s sel p, rem_m s sel p <= zlen (conns_of s p).
 Proof. intros. unfold rem_m. apply zlen_filter_le. Qed.
 
-Lemma phi_le : forall s sel l, phi s sel l <= dsum s sel l + usum s l.
+Lemma phi_le : forall s g sel l, phi s g sel l <= dsum s g sel l + usum s g l.
 Proof.
   intros. unfold phi, dsum, usum. induction l as [|e r IH]; cbn [map zsum]; [lia|].
   unfold dterm at 1, uterm at 1. pose proof (rem_m_le s sel (ce_p e)).
-  destruct (ce_live e), (ce_done e); cbn [andb negb]; lia.
+  destruct (ce_live e), (ce_done e), (incl s g (ce_p e)); cbn [andb negb]; lia.
 Qed.
 
 (* ---- the invariant of the LTS --------------------------------------------------------------- *)
@@ -193,8 +271,15 @@ Record CInv (cfg : config) (cs : cstate) : Prop := mkCInv {
   ci_added : 0 <= cs_added1 cs /\ 0 <= cs_added2 cs;
   (* (c) *)
   ci_c : forall b, cbound cfg cs = Some b ->
-           dsum (cs_s cs) (cs_sel cs) (cs_cands cs) <= cs_added1 cs
-           /\ usum (cs_s cs) (cs_cands cs) <= b + cs_added2 cs
+           dsum (cs_s cs) (cs_gstart cs) (cs_sel cs) (cs_cands cs) <= cs_added1 cs
+           /\ usum (cs_s cs) (cs_gstart cs) (cs_cands cs) <= b + cs_added2 cs;
+  (* (b) at full strength: a selected connection of a candidate that is still
+     the same entry belongs to a peer that is out of grace (and not temp) *)
+  ci_self : forall p c e, In (p, c) (cs_sel cs) -> In e (cs_cands cs) -> ce_p e = p -> ce_live e = true ->
+              p_temp (peer_at (cs_s cs) p) = false /\ p_first (peer_at (cs_s cs) p) <= cs_gstart cs;
+  ci_live : forall e, In e (cs_cands cs) -> ce_live e = true -> p_tracked (peer_at (cs_s cs) (ce_p e)) = true;
+  (* gracePeriodStart never overtakes the clock *)
+  ci_clock : is_idle (cs_ph cs) = false -> cs_gstart cs <= now (cs_s cs) - c_grace cfg
 }.
 
 Lemma cinv_init : forall cfg, CInv cfg (cinit cfg).
